@@ -52,6 +52,11 @@ Fixpoint sequence {A} (l : list (option A)) : option (list A) :=
 Definition lookup (tbl : list (nat * list nat)) (r : nat) : list nat :=
   match find (fun p => Nat.eqb (fst p) r) tbl with Some p => snd p | None => [] end.
 
+(* the successor function of the final sort: the flattened list of a registered root,
+   DependsOn() itself for a root that is not registered (yet) *)
+Definition lookup_or (tbl : list (nat * list nat)) (deps : nat -> list nat) (r : nat) : list nat :=
+  match find (fun p => Nat.eqb (fst p) r) tbl with Some p => snd p | None => deps r end.
+
 Inductive res := Ok (l : list nat) | Cycle | OutOfFuel.
 
 (* first-occurrence merge: `if !found { sorted = append(sorted, s) }` *)
@@ -78,7 +83,7 @@ Definition roots (n : nat) (deps : nat -> list nat) (regs : list nat) : res :=
   match flat_table (depth_fuel n) deps regs with
   | None => OutOfFuel
   | Some tbl =>
-    let rd := lookup tbl in
+    let rd := lookup_or tbl deps in
     if mutual tbl then Cycle else
     match sequence (map (sort_deps (depth_fuel n) rd) regs) with
     | None => OutOfFuel
